@@ -33,22 +33,28 @@ def leaves():
     return Tag, Rev
 
 
-def build(prog, Tag, Rev):
-    """prog: nested tuples ('leaf',k) | ('rev',) | ('comp',[..]) | ('inv',p) -> (transform, encoding)"""
+def build(prog, Tag, Rev, shared=None):
+    """prog: nested tuples ('leaf',k) | ('shared',k) | ('rev',) | ('comp',[..]) | ('inv',p) -> (transform, encoding);
+    ('shared', k) denotes ONE transform object per program, however often it occurs (tied layers)"""
     from nflows.transforms.base import CompositeTransform, InverseTransform
+    shared = {} if shared is None else shared
     kind = prog[0]
     if kind == "leaf":
         return Tag(prog[1]), [0, prog[1]]
+    if kind == "shared":
+        if prog[1] not in shared:
+            shared[prog[1]] = Tag(prog[1])
+        return shared[prog[1]], [0, prog[1]]
     if kind == "rev":
         return Rev(), [3]
     if kind == "comp":
-        parts = [build(p, Tag, Rev) for p in prog[1]]
+        parts = [build(p, Tag, Rev, shared) for p in prog[1]]
         enc = [1, len(parts)]
         for _, e in parts:
             enc += e
         return CompositeTransform([t for t, _ in parts]), enc
     if kind == "inv":
-        t, e = build(prog[1], Tag, Rev)
+        t, e = build(prog[1], Tag, Rev, shared)
         return InverseTransform(t), [2] + e
     raise ValueError(prog)
 
@@ -68,6 +74,12 @@ def programs(depth, r, n):
             must.append(("comp", [chain, ("leaf", 3)]))
             must.append(("comp", [("leaf", 3), chain, ("rev",)]))
             must.append(("inv", ("comp", [chain, ("leaf", 3)])))
+    # the same object at several positions (tied layers, a shared permutation)
+    must.append(("comp", [("shared", 1), ("leaf", 2), ("shared", 1)]))
+    must.append(("comp", [("shared", 2), ("shared", 2)]))
+    must.append(("comp", [("shared", 1), ("rev",), ("shared", 1), ("leaf", 3)]))
+    must.append(("inv", ("comp", [("shared", 1), ("leaf", 2), ("shared", 1)])))
+    must.append(("comp", [("comp", [("shared", 1), ("leaf", 2)]), ("shared", 1)]))
     must.append(("inv", ("inv", ("comp", [("leaf", 1), ("leaf", 2)]))))
     must.append(("comp", [("comp", [("leaf", 1)]), ("comp", []), ("inv", ("comp", [("leaf", 2), ("rev",)]))]))
     for d in range(depth):
@@ -107,7 +119,7 @@ def run(tier, seed):
         t, enc = build(prog, Tag, Rev)
         x = torch.tensor([[1.0, 2.0, 3.0, 5.0], [-4.0, 0.0, 7.0, 8.0]], dtype=torch.float64)
         fy = attempt(t, x)
-        size = str(prog).count("leaf") + str(prog).count("rev")
+        size = str(prog).count("leaf") + str(prog).count("rev") + str(prog).count("shared")
         ck.case(("prog", str(prog)), nontrivial=size >= 2)
         ck.count("program-size=%d" % min(size, 8))
         if fy[0] != "ok":
@@ -147,7 +159,7 @@ def reference(prog, x):
     """plain function composition, written independently of the library wrappers"""
     kind = prog[0]
     b = x.shape[0]
-    if kind == "leaf":
+    if kind in ("leaf", "shared"):
         return x * 2 + prog[1], x.new_full((b,), 2.0 ** prog[1])
     if kind == "rev":
         return x.flip(1), x.new_zeros(b)
@@ -164,7 +176,7 @@ def reference(prog, x):
 def reference_inv(prog, y):
     kind = prog[0]
     b = y.shape[0]
-    if kind == "leaf":
+    if kind in ("leaf", "shared"):
         return (y - prog[1]) / 2, y.new_full((b,), -(2.0 ** prog[1]))
     if kind == "rev":
         return y.flip(1), y.new_zeros(b)
